@@ -223,6 +223,51 @@ Definition exact_fwd (L : nat) (m : list row) (y : list nat) : N :=
   sumN (map (fun p => if leqb (collapse p) y then pweight m p else 0) (paths L (length m))).
 
 (* ------------------------------------------------------------------------------------------ *)
+(* The CTC forward recursion (proved equal to the brute-force sum: alpha_exact); used as the    *)
+(* reference on inputs too long to enumerate                                                    *)
+(* ------------------------------------------------------------------------------------------ *)
+Definition hd_is (l : list nat) (c : nat) : bool :=
+  match l with c' :: _ => Nat.eqb c' c | [] => false end.
+
+(* forward variables; frames and labels most recent first.
+   fst: alignments of the frames that collapse to l and end in a blank (or are empty)
+   snd: ... and end in a non-blank *)
+Fixpoint alpha (rm : list row) (l : list nat) : N * N :=
+  match rm with
+  | [] => (match l with [] => 1 | _ => 0 end, 0)
+  | r :: rm' =>
+      let a := alpha rm' l in
+      ((fst a + snd a) * wt r 0,
+       match l with
+       | [] => 0
+       | c :: l0 =>
+           let a0 := alpha rm' l0 in
+           (snd a + fst a0 + (if hd_is l0 c then 0 else snd a0)) * wt r c
+       end)
+  end.
+Definition alpha_tot (rm : list row) (l : list nat) : N := fst (alpha rm l) + snd (alpha rm l).
+
+(* the same recursion as a dynamic program over all tails of l (linear instead of exponential
+   in the number of frames); proved: alpha_row rm l = map (alpha rm) (tails l) *)
+Fixpoint tails (l : list nat) : list (list nat) :=
+  match l with [] => [[]] | _ :: l0 => l :: tails l0 end.
+Fixpoint arow_step (r : row) (l : list nat) (prev : list (N * N)) : list (N * N) :=
+  match l, prev with
+  | c :: l0, a :: ((a0 :: _) as prev') =>
+      ((fst a + snd a) * wt r 0, (snd a + fst a0 + (if hd_is l0 c then 0 else snd a0)) * wt r c)
+        :: arow_step r l0 prev'
+  | [], a :: _ => [((fst a + snd a) * wt r 0, 0)]
+  | _, _ => []
+  end.
+Fixpoint alpha_row (rm : list row) (l : list nat) : list (N * N) :=
+  match rm with
+  | [] => map (fun t => (match t with [] => 1 | _ => 0 end, 0)) (tails l)
+  | r :: rm' => arow_step r l (alpha_row rm' l)
+  end.
+Definition alpha_dp (rm : list row) (l : list nat) : N :=
+  match alpha_row rm l with a :: _ => fst a + snd a | [] => 0 end.
+
+(* ------------------------------------------------------------------------------------------ *)
 (* Correspondence cases                                                                       *)
 (* ------------------------------------------------------------------------------------------ *)
 
@@ -251,15 +296,20 @@ Definition scaled (m : N) (e : Z) (num D : N) : N * N :=
   | Zpos p => (m * D * 2 ^ Npos p, num)
   | Zneg p => (m * D, num * 2 ^ Npos p)
   end.
-(* score tolerance: 2^-13 (about 1.2e-4) relative on the probability = absolute on the log *)
-Definition tol_den : N := 8192.
-Definition close_ab (a b : N) : bool := ((if a <=? b then b - a else a - b) * tol_den <=? b).
-Definition le_tol_ab (a b : N) : bool := (a * tol_den <=? b * (tol_den + 1)).
-Definition ge_tol_ab (a b : N) : bool := (b * (tol_den - 1) <=? a * tol_den).
-Definition sc_rel (f : N -> N -> bool) (sc : fscore) (num D : N) : bool :=
+(* score tolerance, relative on the probability = absolute on the log score:
+     2^-13  +  T * B * 2^-24     with B = bits of 1/probability,
+   i.e. a fixed 1.2e-4 plus what T frames of f32 operations (3 roundings each, half an ulp of a
+   log score of magnitude 0.69*B) can accumulate in the worst case.  For the shallow families
+   (T <= 6, B <= 42) the second term is below 1.6e-5. *)
+Definition tol_num (T num D : N) : N := 2048 + T * (N.log2 D + 1 - N.log2 num).
+Definition tol_one : N := 16777216.
+Definition close_ab (tn a b : N) : bool := ((if a <=? b then b - a else a - b) * tol_one <=? b * tn).
+Definition le_tol_ab (tn a b : N) : bool := (a * tol_one <=? b * (tol_one + tn)).
+Definition ge_tol_ab (tn a b : N) : bool := (b * (tol_one - tn) <=? a * tol_one).
+Definition sc_rel (f : N -> N -> N -> bool) (sc : fscore) (num D T : N) : bool :=
   match sc with
-  | FVal m e => let (a, b) := scaled m e num D in f a b
-  | FZero => f 0 num
+  | FVal m e => let (a, b) := scaled m e num D in f (tol_num T num D) a b
+  | FZero => f (tol_num T num D) 0 num
   | _ => false
   end.
 Definition sc_close := sc_rel close_ab.
@@ -273,11 +323,12 @@ Definition separated (hi lo : N) : bool := (lo * 1024 <? hi * 1023).
 Definition near (a b : N) : bool := negb (separated a b) && negb (separated b a).
 
 Definition Dpow (c : case) : N := c_den c ^ N.of_nat (length (c_m c)).
+Definition Tn (c : case) : N := N.of_nat (length (c_m c)).
 
 (* ---- greedy ---- *)
 Definition greedy_agree (c : case) : bool :=
   match c_greedy c with
-  | Hyps [h] => steps_eqb (h_steps h) (greedy_steps (c_m c)) && sc_close (h_sc h) (greedy_score (c_m c)) (Dpow c)
+  | Hyps [h] => steps_eqb (h_steps h) (greedy_steps (c_m c)) && sc_close (h_sc h) (greedy_score (c_m c)) (Dpow c) (Tn c)
   | _ => false
   end.
 
@@ -297,7 +348,7 @@ Definition greedy_ok (c : case) : bool :=
   match c_greedy c with
   | Hyps [h] =>
       existsb (fun p => steps_eqb (h_steps h) (collapse_pos p)) (argmax_paths (c_m c))
-      && sc_close (h_sc h) (fold_left (fun acc r => acc * row_max r) (c_m c) 1) (Dpow c)
+      && sc_close (h_sc h) (fold_left (fun acc r => acc * row_max r) (c_m c) 1) (Dpow c) (Tn c)
   | _ => false
   end.
 
@@ -305,20 +356,36 @@ Definition greedy_ok (c : case) : bool :=
 Fixpoint nodup_labels (l : list (list nat)) : bool :=
   match l with [] => true | x :: r => negb (existsb (leqb x) r) && nodup_labels r end.
 
-(* exact probability of a label sequence, by brute force over every alignment *)
+(* reference probability of a label sequence: brute force over every alignment when there are at
+   most 4096 of them, otherwise the forward recursion (equal to it for labels in 1..L-1:
+   C39_forward_recursion_is_exact, C39_alpha_dp_is_alpha) *)
 Definition exact_of (c : case) (y : list nat) : N := exact (c_L c) (c_m c) y.
+Definition small_case (c : case) : bool := (N.of_nat (c_L c) ^ Tn c <=? 4096).
+Definition ref_table (c : case) : list (list nat * N) :=
+  if small_case c then ctable (c_L c) (rev (c_m c)) else [].
+Definition ref_prob (c : case) (tbl : list (list nat * N)) (y : list nat) : N :=
+  if small_case c then lookup tbl (rev y) else alpha_dp (rev (c_m c)) (rev y).
+Definition valid_labels (L : nat) (y : list nat) : bool :=
+  forallb (fun l => (1 <=? l)%nat && (l <? L)%nat) y.
+Definition dead_row (L : nat) (r : row) : bool := forallb (fun l => wt r l =? 0) (seq 0 L).
 
 Definition beam_ok (c : case) : bool :=
   match c_nbest c with
   | Hyps hs =>
       let unp := unpruned true (c_k c) (c_L c) (c_m c) in
-      let tbl := ctable (c_L c) (rev (c_m c)) in
+      let tbl := ref_table c in
       nodup_labels (map h_labels hs)
       && (length hs <=? c_n c)%nat
+      (* some hypothesis must be returned unless every alignment has probability zero *)
+      && match hs with
+         | [] => (c_n c =? 0)%nat || (c_k c =? 0)%nat || existsb (dead_row (c_L c)) (c_m c)
+         | _ => true
+         end
       && forallb (fun h =>
-            let ex := lookup tbl (rev (h_labels h)) in   (* = exact_of c (h_labels h) *)
-            sc_finite (h_sc h) && sc_le (h_sc h) ex (Dpow c)
-            && (if unp then sc_ge (h_sc h) ex (Dpow c) else true)) hs
+            let ex := ref_prob c tbl (h_labels h) in
+            valid_labels (c_L c) (h_labels h)
+            && sc_finite (h_sc h) && sc_le (h_sc h) ex (Dpow c) (Tn c)
+            && (if unp then sc_ge (h_sc h) ex (Dpow c) (Tn c) else true)) hs
       && match c_best c with
          | Hyps [b] =>
              match hs with
@@ -353,13 +420,13 @@ Definition decisive (c : case) : bool :=
 
 (* the i-th implementation hypothesis must be a model hypothesis whose model probability is
    within the ranking margin of the model's i-th, with the same steps and a close score *)
-Fixpoint beam_match (D : N) (model : list bstate) (ms : list bstate) (hs : list hyp) : bool :=
+Fixpoint beam_match (D T : N) (model : list bstate) (ms : list bstate) (hs : list hyp) : bool :=
   match ms, hs with
   | [], [] => true
   | mi :: ms', h :: hs' =>
       existsb (fun mj => steps_eqb (h_steps h) (hyp_steps mj) && near (total mj) (total mi)
-                         && sc_close (h_sc h) (total mj) D) model
-      && beam_match D model ms' hs'
+                         && sc_close (h_sc h) (total mj) D T) model
+      && beam_match D T model ms' hs'
   | _, _ => false
   end.
 Definition beam_agree (c : case) : bool :=
@@ -367,7 +434,7 @@ Definition beam_agree (c : case) : bool :=
     match c_nbest c with
     | Hyps hs =>
         let full := decode_beam_impl true (c_k c) (c_L c) (c_m c) in
-        beam_match (Dpow c) full (firstn (c_n c) full) hs
+        beam_match (Dpow c) (Tn c) full (firstn (c_n c) full) hs
     | Panic => false
     end
   else true.
@@ -389,4 +456,4 @@ Definition show (c : case) :=
    map show_state (decode_beam_nbest true (c_k c) (c_n c) (c_L c) (c_m c)),
    map show_state (decode_beam_nbest false (c_k c) (c_n c) (c_L c) (c_m c)),
    (decisive c, is_unpruned c, Dpow c),
-   match c_nbest c with Hyps hs => map (fun h => exact_of c (h_labels h)) hs | Panic => [] end).
+   match c_nbest c with Hyps hs => map (fun h => ref_prob c (ref_table c) (h_labels h)) hs | Panic => [] end).
